@@ -124,13 +124,22 @@ func (s Scope) MatchedUpdate(t Scope) (Scope, error) {
 	for e := s.Enumerator(); e.MoveNext(); {
 		name, v := e.Current()
 		if expr, exists := t.Get(name); exists {
-			if expr.String() != v.String() {
+			if !sameBinding(expr, v) {
 				return Scope{}, fmt.Errorf("the value of %s is different in both scopes", name)
 			}
 		}
 	}
 
 	return s.Update(t), nil
+}
+
+func sameBinding(a, b Expr) bool {
+	if av, ok := a.(Value); ok {
+		if bv, ok := b.(Value); ok {
+			return av.Equal(bv)
+		}
+	}
+	return a.String() == b.String()
 }
 
 // Project returns a new scope with just names from the input scope.
